@@ -4,8 +4,13 @@ Resource monitors for the fault-injection world (C20):
    bounded by a budget that raises *inside* that code and keeps raising until control returns;
  * memory = tracemalloc peak (numpy registers its buffers);
  * handles = every file object created through builtins.open / io.open during the call.
-Deterministic: no wall clock is read.
+ * backstop for loops the line counter cannot see (a regular expression backtracking inside the C matcher): the process's own
+   CPU timer (ITIMER_VIRTUAL, not the wall clock: machine load does not move it) fires every NATIVE_SECONDS of CPU time; if not a
+   single monitored line ran in between, the code under test is stuck in native code and the budget exception is raised there
+   (CPython's matcher and most long C loops poll for signals).
+Deterministic: no wall clock is read; the backstop only tells "no progress at all for many CPU-seconds" from "progress".
 """
+import signal
 import builtins
 import io
 import os
@@ -28,8 +33,12 @@ class StepBudgetExceeded(BaseException):
     """Raised inside the code under test when the step budget is exhausted."""
 
 
+NATIVE_SECONDS = 8.0
+
+
 class Monitor:
     def __init__(self, prefixes, exclude=()):
+        self._seen_steps = -1
         self.prefixes = tuple(prefixes)
         # pure-Python helpers whose work is bounded by construction (chunk-sampling charset detection): not counted, ~100x faster
         self.exclude = tuple(exclude)
@@ -75,6 +84,16 @@ class Monitor:
                 os._exit(97)
             raise StepBudgetExceeded(f"step budget {self.budget} exceeded at {code.co_filename}:{line}")
 
+    def _on_cpu_timer(self, signum, frame):
+        if not self.active:
+            return
+        if self.steps == self._seen_steps:
+            self.raised += 1
+            if self.raised > 50:
+                os._exit(97)
+            raise StepBudgetExceeded(f"no monitored line executed during {NATIVE_SECONDS} s of CPU time: stuck in native code")
+        self._seen_steps = self.steps
+
     # ---------------------------------------------------------------- handles
     def _tracking_open(self, real):
         mon = self
@@ -104,6 +123,13 @@ class Monitor:
         tracemalloc.reset_peak()
         base = tracemalloc.get_traced_memory()[0]
         out = {"outcome": None, "value": None, "exc": None}
+        self._seen_steps = -1
+        try:
+            old_handler = signal.signal(signal.SIGVTALRM, self._on_cpu_timer)
+            signal.setitimer(signal.ITIMER_VIRTUAL, NATIVE_SECONDS, NATIVE_SECONDS)
+            timer = True
+        except (ValueError, OSError, AttributeError):
+            timer = False  # not the main thread: the block timeout of the runner is the only backstop
         self.active = True
         try:
             try:
@@ -111,6 +137,9 @@ class Monitor:
                 out["outcome"] = "returned"
             finally:
                 self.active = False
+                if timer:
+                    signal.setitimer(signal.ITIMER_VIRTUAL, 0.0)
+                    signal.signal(signal.SIGVTALRM, old_handler)
         except StepBudgetExceeded as e:
             out["outcome"], out["exc"] = "step-budget", e
         except MemoryError as e:
